@@ -44,10 +44,10 @@ def arena_corpus(tier, seed, gens, profiles=("dbg", "rel")):
     return jobs
 
 ARENA_GENS = {
-    "C01": ["history", "offset", "random", "trywith"],
-    "C02": ["history", "random", "uniform"],
+    "C01": ["history", "offset", "random", "trywith", "fault"],
+    "C02": ["history", "random", "uniform", "fault"],
     "C03": ["history", "random", "fault"],
-    "C04": ["offset", "history", "trywith"],
+    "C04": ["offset", "history", "trywith", "fault"],
     "C06": ["history", "random", "uniform", "limit"],
     "C07": ["history", "random", "limit"],
     "C08": ["history", "random", "fault", "limit"],
